@@ -88,7 +88,7 @@ static std::string cmd_tk(const std::vector<std::string> &args)
     char buf[32];
     snprintf(buf, sizeof(buf), "%d:", type);
     out += buf;
-    if (type != TOKEN_NUMBER) { out += tohex(std::string(token)); } else { out += "-"; }
+    if (type != TOKEN_NUMBER && type != TOKEN_EOF) { out += tohex(std::string(token)); } else { out += "-"; }
     if (type == TOKEN_EOF) { break; }
   }
   out += " " + reader_state(ctx);
@@ -161,8 +161,45 @@ static std::string cmd_mx(const std::vector<std::string> &args)
   return out;
 }
 
+// c16asm <hex source> : the two passes of main() in-process on a source without include files.
+//   -> st=<0|1> diag=<0|1>   (diag: something that reads like a diagnostic was printed)
+static std::string cmd_c16asm(const std::vector<std::string> &args)
+{
+  if (args.size() != 1) { return "bad-op"; }
+  AsmContext *ctx = new AsmContext();
+  ctx->quiet_output = 1;
+  std::string keep;
+  FILE *in = reader_open(ctx, unhex(args[0]), keep);
+  ctx->init();
+  int error_flag = ctx->assemble();
+  do
+  {
+    if (error_flag == 0 && ctx->link() != 0) { error_flag = 1; }
+    if (error_flag != 0) { break; }
+    ctx->symbols.lock();
+    ctx->symbols.scope_reset();
+    ctx->pass = 2;
+    ctx->init();
+    error_flag = ctx->assemble();
+    if (error_flag != 0) { break; }
+    if (ctx->link() != 0) { error_flag = 1; }
+  } while (0);
+  std::string printed = capture_take();
+  bool diag = printed.find("rror") != std::string::npos || printed.find("annot") != std::string::npos ||
+              printed.find("nknown") != std::string::npos || printed.find("nexpected") != std::string::npos ||
+              printed.find("xpect") != std::string::npos || printed.find("nvalid") != std::string::npos ||
+              printed.find(" at ") != std::string::npos;
+  char buf[64];
+  snprintf(buf, sizeof(buf), "st=%d diag=%d", error_flag == 0 ? 0 : 1, diag ? 1 : 0);
+  if (in != NULL) { fclose(in); }
+  ctx->tokens.in = NULL;
+  delete ctx;
+  return buf;
+}
+
 static void register_reader()
 {
+  handlers["c16asm"] = cmd_c16asm;
   handlers["tk"] = cmd_tk;
   handlers["mp"] = cmd_mp;
   handlers["mx"] = cmd_mx;
